@@ -51,6 +51,26 @@ R.contract(
     unreachable_ok=["return 0.0"],
 )
 
+# non-finite weights: nan is the only float the engine models besides the reals (VNaN: all comparisons False,
+# isfinite False); +-inf behave like very large reals in `_clamp` (clamped to a bound) and are not modelled in `_round6`
+R.contract(
+    S + "_clamp", "C06", name="_clamp[nan]", callee=False,
+    types={"x": "=nan()", "lo": "float", "hi": "float"},
+    ensures=[("nan-passes-through", "is_nan(result)")], raises="none",
+    unreachable_ok=["return lo", "return hi", "return x"],
+)
+R.contract(
+    S + "_round6", "C06", name="_round6[nan]", callee=False,
+    types={"x": "=nan()"},
+    ensures=[("non-finite-becomes-zero", "result == 0.0")], raises="none",
+    unreachable_ok=["return round(float(x), 6)", "return 0.0"],
+)
+R.contract(
+    DRV + "c06_round6_of_clamp", "C06", name="_round6(_clamp(nan, lo, hi))", callee=False,
+    types={"w": "=nan()", "lo": "float", "hi": "float"},
+    ensures=[("nan-weight-is-stored-as-zero", "result == 0.0")], raises="none",
+)
+
 R.contract(
     S + "_edge_id", "C06",
     types={"src": "str", "dst": "str", "rel": "str"}, returns="str",
@@ -435,16 +455,18 @@ EPS_E = "ite(%s['decay']['epsilon_prune'] < 0, 0.0, %s['decay']['epsilon_prune']
 R.loops(S + "_sanitize_gel_for_write", SAN_LOOPS)
 
 
-def _load(variant, geltype, extra):
+def _load(variant, geltype, extra, dead=()):
     R.contract(
         S + "_sanitize_gel_for_load", "C06", name="_sanitize_gel_for_load[%s]" % variant, callee=False,
         types={"gel": geltype, "ctx": "C06CtxSan"}, axioms=ROUND_FACTS, timeout_ms=6000,
         ensures=[(n, c.replace("bnd_wmin", WMIN_E).replace("bnd_wmax", WMAX_E).replace("bnd_eps", EPS_E)) for n, c in LOAD_COMMON] + extra,
-        raises="none", unreachable_ok=["pass"],
+        raises="none", unreachable_ok=["pass"] + list(dead),
     )
 
 
+# (no last_update key in the input meta: nothing to carry over)
 _load("meta-without-last_update", "C06Gel", [("no-last_update-key", "not ('last_update' in result['meta'])"),
-                                             ("meta-has-the-six-write-keys", "len(result['meta']) == 6")])
+                                             ("meta-has-the-six-write-keys", "len(result['meta']) == 6")],
+      dead=["meta['last_update'] = "])
 _load("meta-with-last_update", "C06GelLU", [("last_update-carried", "result['meta']['last_update'] == gel['meta']['last_update']"),
                                           ("meta-has-seven-keys", "len(result['meta']) == 7")])
